@@ -285,7 +285,8 @@ def check(prop: str, tier: str, seed: int) -> int:
             progs.append(limit_program(variant, "export", x))
         if variant[1] == "DT":
             continue            # no battery: the DoD calls are documented as unsupported
-        for d in range(0, 101, 7 if quick else 1):
+        # quick: both ends of the documented range and their neighbours, then every seventh value
+        for d in (sorted({0, 1, 2, 50, 98, 99, 100} | set(range(0, 101, 7))) if quick else range(0, 101)):
             progs.append(limit_program(variant, "dod", d))
     # sequences on one object: a, b, a for all pairs of modes (thorough: all triples), on every ET / ES variant
     allmodes = (0, 1, 2, 3, 4, 5, 98, 99)
